@@ -480,6 +480,12 @@ func suiteC02(c *Ctx) []Suite {
 					o.PEllipsis = 0.3
 				}
 				item := genItem(c.R, o)
+				if i%12 == 7 && item.Kind == "L" {
+					// the empty item (the placeholder of a missing value) as an element of a list:
+					// such a list does not encode, so the message is not complete
+					at := c.R.Intn(len(item.Slots) + 1)
+					item.Slots = append(item.Slots[:at], append([]Slot{{Child: &Node{Kind: "E"}}}, item.Slots[at:]...)...)
+				}
 				m := genMsgDesc(c.R, item, 0)
 				m.HSMS = i%4 == 1 // also through the constructor that takes session id and system bytes
 				steps := []string{m.newStep()}
@@ -497,6 +503,11 @@ func suiteC02(c *Ctx) []Suite {
 				tag := "msg-complete-candidate"
 				if !item.Closed() {
 					tag = "msg-open-item"
+				}
+				if i%8 == 5 {
+					// the session id taken away again (-1 = none): not complete any more
+					steps = append(steps, fmt.Sprintf("sess -1 %s", hx(m.Sys)))
+					tag = "msg-session-cleared"
 				}
 				out = append(out, Case{Op: "mprog " + strings.Join(steps, " | "), Decisive: true, Nontrivial: true, Tags: []string{tag}}.fields("bytes"))
 			}
@@ -923,6 +934,30 @@ func suiteC13base(c *Ctx) []Suite {
 					}
 					out = append(out, Case{Detail: fmt.Sprintf("fill ASCII variable with %d characters nested=%v", n, nested), Oracle: res, Nontrivial: true, Tags: []string{"fill-at-limit"}})
 				}
+			}
+			// the longest ASCII item written as SML text: one quoted string of 16,777,214 and of
+			// 16,777,215 characters is accepted (3-byte length header), one more is refused
+			for _, n := range []int{16777214, 16777215, 16777216} {
+				res := ""
+				safely(func() {
+					text := "S1F1 W H->E\n<A \"" + strings.Repeat("q", n) + "\">\n."
+					r := parseSML(text)
+					switch {
+					case r.panicked:
+						res = "panic"
+					case n <= 16777215 && (len(r.errs) != 0 || len(r.msgs) != 1):
+						res = fmt.Sprintf("an ASCII item of %d characters written as one quoted string is refused: %v", n, r.errs)
+					case n <= 16777215:
+						b := completedBytes(r.msgs[0])
+						want, _ := unhx(closedFormHeader("ascii", n))
+						if len(b) != 14+len(want)+n || !bytes.Equal(b[14:14+len(want)], want) {
+							res = fmt.Sprintf("the parsed ASCII item of %d characters encodes to %d bytes", n, len(b))
+						}
+					case len(r.msgs) != 0 || len(r.errs) == 0:
+						res = fmt.Sprintf("an ASCII item of %d characters written as SML text is accepted", n)
+					}
+				})
+				out = append(out, Case{Detail: fmt.Sprintf("SML text with a quoted string of %d characters", n), Oracle: res, Nontrivial: true, Tags: []string{"sml-string-at-limit"}})
 			}
 			// sizes declared in SML text reach the limit too: a variable declared with a bound in
 			// the upper half of the legal range takes values up to that bound and no others
